@@ -42,7 +42,8 @@ ROUTERS = [U("Direct.next_node"), U("Leave.next_node"), U("Probabilistic.next_no
           [U("NodeRouting.next_node_for_rerouting", rc) for rc in ["Probabilistic", "Direct", "Leave", "JoinShortestQueue", "LoadBalancing", "Cycle"]]
 
 SCHEDULES = [U("Schedule.get_schedule_generator"), U("Schedule.initialise"), U("Schedule.get_next_shift"),
-             U("Slotted.get_next_slot"), U("Slotted.initialise")]
+             U("Slotted.get_next_slot"), U("Slotted.initialise"), U("Node.kill_server"), U("Node.add_new_servers")]
+EXACT = [U("ExactNode.get_service_time"), U("ExactArrivalNode.inter_arrival"), U("ExactNode.increment_time"), U("ExactArrivalNode.increment_time")]
 
 PROPS = {
     "C01": dict(units=TRANSFER + ARRIVAL[:4]),
@@ -50,7 +51,7 @@ PROPS = {
                 [U("Node.release"), U("Node.renege"), U("Node.decide_class_change")] + LOOPS[:3]),
     "C03": dict(units=[U("Node.release"), U("Node.renege"), U("Node.finish_service"), U("Node.accept"), U("ArrivalNode.have_event"),
                        U("Node.begin_interrupted_individuals_service")]),
-    "C04": dict(units=[U("Node.find_free_server"), U("Node.release")] + START + STATS),
+    "C04": dict(units=[U("Node.find_free_server"), U("Node.release"), U("Node.kill_server"), U("Node.add_new_servers")] + START + STATS),
     "C05": dict(units=[U("Node.find_free_server"), U("Node.choose_next_customer"), U("Node.accept"),
                        U("Node.begin_service_if_possible_accept"), U("Node.begin_service_if_possible_release")]),
     "C06": dict(units=[U("Node.release"), U("Node.finish_service"), U("Node.accept"), U("Node.release_blocked_individual"),
@@ -63,7 +64,7 @@ PROPS = {
                        U("Node.decide_class_change"), U("Node.release"), U("Node.renege"), U("Node.finish_service"),
                        U("ArrivalNode.have_event")] + ROUTERS),
     "C10": dict(units=[U("Distribution._sample"), U("ArrivalNode.find_next_event_date"), U("Node.decide_class_change"),
-                       U("ArrivalNode.have_event"), U("ArrivalNode.batch_size"), U("ArrivalNode.inter_arrival")] + START),
+                       U("ArrivalNode.have_event"), U("ArrivalNode.batch_size"), U("ArrivalNode.inter_arrival")] + START + EXACT[:2]),
     "C11": dict(units=[U("Node.begin_interrupted_individuals_service"), U("Node.decide_preempt"), U("Node.preempt"),
                        U("Node.begin_service_if_possible_accept"), U("Node.begin_service_if_possible_release")]),
     "C12": dict(units=SCHEDULES + [U("Node.decide_preempt"), U("Node.decide_next_event"), U("Node.update_next_end_service_without_server"), U("Node.update_next_event_date"),
@@ -72,7 +73,7 @@ PROPS = {
     "C13": dict(units=[U("NodeRouting.next_node_for_jockeying"), U("ProcessBased.next_node_for_jockeying"), U("NetworkRouting.next_node_for_jockeying"),
                        U("Node.decide_next_event"), U("Node.update_next_renege_time"), U("Node.update_next_event_date"),
                        U("Node.renege"), U("Node.begin_service_if_possible_accept"), U("Node.accept"), U("ArrivalNode.decide_baulk")]),
-    "C14": dict(units=KERNELS + NEXT_EVENT + START + TRANSFER + ARRIVAL + LOOPS + STATS + [U("StateTracker.timestamp"), U("Node.preempt"), U("Node.__init__")]),
+    "C14": dict(units=KERNELS + NEXT_EVENT + START + TRANSFER + ARRIVAL + LOOPS + STATS + [U("StateTracker.timestamp"), U("Node.preempt"), U("Node.__init__")] + EXACT + SCHEDULES),
     "C16": dict(units=[U("Simulation.find_next_active_node")]),
     "C17": dict(units=[U("Node.block_individual"), U("Node.change_customer_class"), U("Node.accept"), U("Node.release"), U("Node.renege"),
                        U("Node.finish_service"), U("Node.release_blocked_individual")] + TRACKERS + LOOPS[:3]),
